@@ -2,6 +2,7 @@ use crate::engine::{CaseResult, Engine, Tier};
 use serde_json::Value;
 
 pub mod c01;
+pub mod c04;
 pub mod c06;
 pub mod c07;
 pub mod c08;
@@ -17,6 +18,7 @@ pub struct Prop {
 pub fn all() -> Vec<Prop> {
     vec![
         Prop { id: "C01", level: "exploration", run: c01::run, replay: c01::replay },
+        Prop { id: "C04", level: "exploration", run: c04::run, replay: c04::replay },
         Prop { id: "C06", level: "exploration", run: c06::run, replay: c06::replay },
         Prop { id: "C07", level: "exploration", run: c07::run, replay: c07::replay },
         Prop { id: "C08", level: "exploration", run: c08::run, replay: c08::replay },
@@ -36,7 +38,10 @@ pub fn run_property(id: &str, tier: Tier, seed: u64) -> i32 {
         }
     };
     let mut eng = Engine::new(p.id, p.level, tier, seed);
-    (p.run)(&mut eng);
+    if let Err(pm) = crate::engine::caught(|| (p.run)(&mut eng)) {
+        eng.note(format!("HARNESS: panic outside a case: {}", pm));
+        eng.extra.insert("harness_error".into(), serde_json::json!(true));
+    }
     run_pinned(&p, &mut eng);
     eng.finish()
 }
